@@ -17,6 +17,7 @@ pub mod c11;
 pub mod c12;
 pub mod c13;
 pub mod c14;
+pub mod c15;
 pub mod c16;
 pub mod c17;
 pub mod c18;
@@ -39,6 +40,7 @@ pub fn run(id: &str, tier: Tier) -> Option<CheckResult> {
         "C12" => Some(c12::run(tier)),
         "C13" => Some(c13::run(tier)),
         "C14" => Some(c14::run(tier)),
+        "C15" => Some(c15::run(tier)),
         "C16" => Some(c16::run(tier)),
         "C17" => Some(c17::run(tier)),
         "C18" => Some(c18::run(tier)),
@@ -64,6 +66,7 @@ pub fn replay(id: &str, case: &Value) -> Option<Vec<Violation>> {
         "C12" => Some(c12::replay(case)),
         "C13" => Some(c13::replay(case)),
         "C14" => Some(c14::replay(case)),
+        "C15" => Some(c15::replay(case)),
         "C16" => Some(c16::replay(case)),
         "C17" => Some(c17::replay(case)),
         "C18" => Some(c18::replay(case)),
